@@ -1235,6 +1235,7 @@ def generic_rules(prop, index, rep):
 
 
 _BORROW_CACHE = {}
+_BORROW_DEPTH = [0]
 
 
 def borrow(index, rep, other_prop, rule_ids, as_rid, tier="quick"):
@@ -1244,13 +1245,20 @@ def borrow(index, rep, other_prop, rule_ids, as_rid, tier="quick"):
     from ..core import Report
     mod = importlib.import_module("sa.rules.%s" % other_prop.lower())
     ck = (id(index), other_prop)
+    if _BORROW_DEPTH[0] > 0:
+        # we are inside a lender's run: its own borrowed sections are not what the outer borrower asked for
+        # (and two properties may borrow from each other)
+        return 10 ** 6
     tmp = _BORROW_CACHE.get(ck)
     if tmp is None:
         tmp = Report(other_prop, index)
+        _BORROW_DEPTH[0] += 1
         try:
             mod.run(index, tmp, tier)
         except AnalysisError as e:
             tmp.errors.append(str(e))
+        finally:
+            _BORROW_DEPTH[0] -= 1
         _BORROW_CACHE[ck] = tmp
     n = 0
     for o in tmp.obligations:
